@@ -379,14 +379,24 @@ def run_pairs(item):
     out = []
     n = 0
     for kb in KINDS:
-        for (va, vb) in ((0, 0), (1, 2), (2, 1)):
+        for (va, vb, corr) in ((0, 0, False), (1, 2, False), (2, 1, False), (0, 1, True)):
             pa = ka.participant[-1]
             pb = kb.participant[-1]
             if (ka.in_scope is not None and not ka.in_scope(cfg, va)) or (kb.in_scope is not None and not kb.in_scope(cfg, vb)):
                 continue
             with P.ProtoStack(cfg) as st:
                 a = ka.gen(va, pa, 0)
-                b = kb.gen(vb, pb, 0)
+                b = kb.gen(vb, pb, 3 if corr else 0)
+                if corr:
+                    # B is about the same message and parties as A and carries notify / offline (a stanza the
+                    # server delivers again, a second notification under one id): it still needs its own answer
+                    shared = 0
+                    for attr in ("id", "from", "participant"):
+                        if isinstance(a, ProtocolTreeNode) and a[attr] is not None and b[attr] is not None:
+                            b.attributes[attr] = a[attr]
+                            shared += 1
+                    if not shared:
+                        continue
                 st.inject(a)
                 st.take()
                 exc = st.inject(b)
